@@ -637,6 +637,53 @@ func Variant(r *Rng, e string) string {
 	}
 }
 
+// CaseFlip changes the case of the first letter of one identifier of the expression
+// (nums -> Nums): a key that differs from a document key only in case must simply be
+// missing.
+func CaseFlip(r *Rng, e string) string {
+	var starts []int
+	inQuote := byte(0)
+	for i := 0; i < len(e); i++ {
+		c := e[i]
+		if inQuote != 0 {
+			if c == '\\' {
+				i++
+			} else if c == inQuote {
+				inQuote = 0
+			}
+			continue
+		}
+		if c == '\'' || c == '"' || c == '`' {
+			inQuote = c
+			continue
+		}
+		isL := c >= 'a' && c <= 'z' || c >= 'A' && c <= 'Z'
+		prevL := i > 0 && (e[i-1] >= 'a' && e[i-1] <= 'z' || e[i-1] >= 'A' && e[i-1] <= 'Z' || e[i-1] == '_' || e[i-1] >= '0' && e[i-1] <= '9')
+		if isL && !prevL {
+			// skip function names (followed by an opening parenthesis)
+			j := i
+			for j < len(e) && (e[j] >= 'a' && e[j] <= 'z' || e[j] >= 'A' && e[j] <= 'Z' || e[j] == '_' || e[j] >= '0' && e[j] <= '9') {
+				j++
+			}
+			if j < len(e) && e[j] == '(' {
+				continue
+			}
+			starts = append(starts, i)
+		}
+	}
+	if len(starts) == 0 {
+		return e
+	}
+	k := starts[r.Intn(len(starts))]
+	c := e[k]
+	if c >= 'a' && c <= 'z' {
+		c -= 32
+	} else {
+		c += 32
+	}
+	return e[:k] + string(c) + e[k+1:]
+}
+
 // Chain draws a type-unaware postfix chain over the nested parts of the schema: index,
 // slice, list projection, flatten, filter, object projection, field, pipe — in every
 // order, e.g. grid[0][*].k, grid | [-1][*].t[], tree.kids[0].kids[*].name,
@@ -681,6 +728,13 @@ func Chain(r *Rng) string {
 // Expr draws one expression: mostly well-typed, sometimes deliberately ill-typed so
 // that error paths are reached after work has started.
 func Expr(r *Rng) string {
+	if r.Chance(1, 14) {
+		return CaseFlip(r, exprInner(r))
+	}
+	return exprInner(r)
+}
+
+func exprInner(r *Rng) string {
 	if r.Chance(1, 4) {
 		return Chain(r)
 	}
